@@ -24,7 +24,7 @@ type c17Arg struct {
 
 var c17Args = []c17Arg{
 	{"nil", "nil", false}, {bn.KwTrue, "bool", false},
-	{"0", "number", true}, {"(-0)", "number", true}, {"1", "number", false}, {"(-1)", "number", false}, {"3", "number", false},
+	{"0", "number", true}, {bn.BLen + "([])", "number", true}, {bn.BLen + "(" + bn.BRemove + "([1], 0))", "number", true}, {bn.BLen + "([4, 5])", "number", false}, {"(-0)", "number", true}, {"1", "number", false}, {"(-1)", "number", false}, {"3", "number", false},
 	{"0.5", "number", true}, {"(-0.5)", "number", true}, {"1.5", "number", true}, {"(-1.5)", "number", true}, {"2.5", "number", true}, {"(-2.5)", "number", true},
 	{"0.49999999999999994", "number", true}, {"4503599627370495.5", "number", true}, {"4503599627370496.5", "number", true}, {"9007199254740992", "number", true},
 	{"1" + strings.Repeat("0", 308), "number", true}, {"0.000001", "number", true}, {"0." + strings.Repeat("0", 322) + "5", "number", true},
